@@ -75,6 +75,8 @@ func init() {
 		"(*os.fileStat).IsDir":        extFileStatIsDir,
 		"github.com/jsightapi/jsight-schema-core/reader.Read": extReaderRead,
 		"runtime.KeepAlive":            extNop,
+		"sort.Slice":                   extSortSlice,
+		"sort.SliceStable":             extSortSlice,
 		"unicode.IsSpace":              extUnicodeIsSpace,
 		"regexp.MustCompile":           extRegexpMustCompile,
 		"regexp.Compile":               extRegexpCompile,
@@ -1267,4 +1269,21 @@ func extReggenSetSeed(in *Interp, fn *ssa.Function, args []Value) Value {
 func extReggenGenerate(in *Interp, fn *ssa.Function, args []Value) Value {
 	g := in.reggens[args[0].(*Value)]
 	return Str{S: g.Generate(in.intArg(args[1], "reggen-limit"))}
+}
+
+// sort.Slice / sort.SliceStable: stable insertion sort driving the interpreted less function.
+func extSortSlice(in *Interp, fn *ssa.Function, args []Value) Value {
+	x := args[0].(Iface)
+	sl, _ := x.V.([]Value)
+	less := args[1]
+	lt := func(i, j int) bool {
+		r := in.call(less, []Value{Sc{C: uint64(i)}, Sc{C: uint64(j)}}).(Sc)
+		return in.branch(r, RecBranch, "sort-less")
+	}
+	for i := 1; i < len(sl); i++ {
+		for j := i; j > 0 && lt(j, j-1); j-- {
+			sl[j], sl[j-1] = sl[j-1], sl[j]
+		}
+	}
+	return nil
 }
